@@ -46,6 +46,7 @@ def check(ctx, F):
     check_change_predicate(ctx, F, E)
     check_append(ctx, F, "C09.record")
     check_replay_bounds(ctx, F, "C09.replay")
+    check_snapshot(ctx, F, "C09.change-predicate")
     if has_history(F):
         check_record(ctx, F)
         check_pin(ctx, F, E)
@@ -96,6 +97,37 @@ def check_change_predicate(ctx, F, E):
                 ctx.violation("C09.change-predicate", site + "/" + f, "%s (%s)" % (site, F.floc(ne[0])),
                               "applyRequest may write registry.%s but the change test `registry != backup` does not compare it: such a request is applied "
                               "without being guarded or recorded, and a vetoed round cannot be told from an unchanged one" % f, {"field": f})
+
+
+def check_snapshot(ctx, F, rule):
+    """`registry != backup` answers "did these requests change the pending configuration" only if the snapshot was taken before the first of them:
+    on no path does registry.backup() run between an applyRequest() and the comparison that follows it"""
+    for fid, b in insts(F, "R_", {"applyRequests", "processTransitions", "initialEnter"}):
+        site = "R_::" + b["name"]
+        bad = None
+        n = 0
+        for p in sym_paths(F, fid, 2):
+            ctx.paths += 1
+            applied = False
+            for ev in p:
+                if ev[0] != "call" or ev[2] is None:
+                    continue
+                nm = F.fn(ev[2])["name"]
+                if nm == "applyRequest":
+                    applied = True
+                elif nm == "backup" and (ev[3] or "").endswith(".registry"):
+                    if applied:
+                        bad = "registry.backup() runs after an applyRequest() and before the comparison with the snapshot"
+                elif nm in ("operator!=", "operator==") and (ev[3] or "").endswith(".registry") or \
+                        (nm in ("operator!=", "operator==") and any((a or "").endswith(".registry") for a in (ev[4] or []))):
+                    n += 1
+                    applied = False
+        if n:
+            ctx.instance(rule, site + "/snapshot", {"function": site, "loc": F.floc(fid), "comparisons_on_paths": n})
+            if bad:
+                ctx.violation(rule, site + "/snapshot", "%s (%s)" % (site, F.floc(fid)),
+                              bad + ": the comparison only sees what the requests applied after it changed - a list whose last request changes nothing is "
+                              "reported as 'no change' and is neither committed nor recorded", {})
 
 
 def check_replay_bounds(ctx, F, rule):
